@@ -199,3 +199,26 @@ package zenodb
 //@   loop 1 invariant none_yet: forall q in 0..$i :: fs.fields[q].String() != fieldString
 //@   loop 1 invariant bounds: 0 <= $i && $i <= len(fs.fields)
 
+
+// C17: the shared scan must serve every coalesced query at least as fresh a view as it asked for: it includes the
+// memstore iff at least one of the coalesced iterations wants it (a query alone gets exactly what it asked for).
+//@ func (*DB).doProcessIterations
+//@   requires len(iterations) > 0
+//@   modifies *
+//@   at call (*zenodb.rowStore).iterate assert memstore_if_any_wants_it: callarg3 == (exists j in 0..len(iterations) :: old(iterations[j].includeMemStore))
+//@   loop 0 invariant flags_same: forall j in 0..len(iterations) :: iterations[j] == old(iterations[j]) && iterations[j].includeMemStore == old(iterations[j].includeMemStore)
+//@   loop 0 invariant bounds: 0 <= $i && $i <= len(iterations)
+//@   loop 0 invariant any_so_far: includeMemStore == (exists j in 0..$i :: old(iterations[j].includeMemStore))
+//@   loop 1 invariant flags_same: forall j in 0..len(iterations) :: iterations[j] == old(iterations[j]) && iterations[j].includeMemStore == old(iterations[j].includeMemStore)
+
+// hasOutField (closure of doProcessIterations) only compares field texts.
+//@ func (*DB).doProcessIterations$1
+//@   modifies nothing
+
+// C02: the offset file must never get ahead of the data on disk: the flush step writes it only when the memstore holds
+// no rows (everything the offsets cover is then already in a filestore, or was filtered out); when there are rows, the
+// offsets travel inside the new filestore's header, written and renamed as one unit by processFlush.
+//@ func (*rowStore).processInserts$1
+//@   modifies *
+//@   capture memLen Int = result 0 of call bytetree.Tree).Length
+//@   at call (*zenodb.rowStore).writeOffsets assert offsets_only_when_nothing_to_flush: captured(memLen) && memLen == 0
